@@ -211,3 +211,16 @@ Definition check_e2e (c : tcase) : list nat :=
 
 Definition check_cases_deep (cs : list (nat * tcase)) : list (nat * list nat) :=
   flat_map (fun p => match check_case (snd p) ++ check_wmedian (snd p) ++ check_e2e (snd p) with [] => [] | l => [(fst p, l)] end) cs.
+
+(* ---------- unit correspondence: inner functions run on synthetic states ---------- *)
+(* the implementation's vbalance / normalize on an arbitrary feasible layering against the model's *)
+Definition unit_check (fn : nat) (before after : graph) : bool :=
+  let m := match fn with
+           | 1%nat => vbalance before
+           | 2%nat => normalize before
+           | _ => before
+           end in
+  forall2b node_eqb_layer (g_na m) (g_na after).
+
+Definition unit_cases_failing (cs : list (nat * (nat * graph * graph))) : list nat :=
+  flat_map (fun c => let '(i, (fn, b, a)) := c in if unit_check fn b a then [] else [i]) cs.
